@@ -89,4 +89,3 @@ package protocol
 //@ ensures records: result == nil ==> forall(0, len(a.Records), func(i int) bool { return a.Records[i].Epoch == ACK_BE64(data, 2+16*i) && a.Records[i].SequenceNumber == ACK_BE64(data, 10+16*i) })
 //@ ensures input-unchanged: forall(0, len(data), func(i int) bool { return data[i] == old(data[i]) })
 //@ end
-
